@@ -534,6 +534,14 @@ class VecEval:
             m = pick(a0)
             return Fraction(list(a0).index(m))  # numpy: first occurrence
         if last in ("min", "max", "amin", "amax"):
+            if isinstance(a0, tuple) and len(_shape(a0)) == 2 and ("axis" in kw or len(args) == 2):
+                axis = self.ev(kw["axis"]) if "axis" in kw else args[1]
+                pick = min if "min" in last else max
+                if int(axis) in (1, -1):
+                    return tuple(pick(row) for row in a0)
+                if int(axis) == 0:
+                    return tuple(pick(row[j] for row in a0) for j in range(len(a0[0])))
+                raise Unsupported("axis")
             if len(args) == 1 and is_vec(a0):
                 return (min if "min" in last else max)(a0)
             if all(isinstance(x, Fraction) for x in args):
